@@ -85,6 +85,17 @@ func c10Gen(t *rapid.T) c10Case {
 			c.History = append(c.History, worldGenReq(t, c.Snap, c10HistoryKinds))
 		}
 	}
+	// configuration written between operations, so that per-revision snapshots differ
+	if len(c.History) >= 2 {
+		for _, pos := range []int{1, len(c.History) - 1} {
+			if rapid.IntRange(0, 9).Draw(t, "cfg") < 4 {
+				cfg := worldGenReq(t, c.Snap, []string{"set-config"})
+				h := append([]worldReq(nil), c.History[:pos]...)
+				h = append(h, cfg)
+				c.History = append(h, c.History[pos:]...)
+			}
+		}
+	}
 	return c
 }
 
